@@ -157,7 +157,7 @@ m = {
         "enable": "every check compiles /repo/src out of tree into /verif/build/<check>/ with -DROOTSIM_VERIF -include /verif/engine/vy.h "
                   "(hooks all C11 atomics, __rdtsc, _mm_pause); arch/thread.c is replaced by engine/plat.c",
         "baseline_off_cmd": "bin/check baseline",
-        "source_commits": [],
+        "source_commits": ["d8c52bebb34d427648a766957d722802fd191fed"],
         "add_only": True,
     },
     "engines": [
